@@ -78,6 +78,27 @@ def generate(rng, tier):
             else:
                 out.append(e)
         cases.append({'ast': ast, 'trace': out, 'errthru': True})
+    for i in range({'quick': 8, 'thorough': 150, 'search': 2}[tier]):
+        # scale: hundreds of keys live at once (created in waves), hundreds of inner keys per outer key, long keys,
+        # large windows - inner key arithmetic and live-key bookkeeping beyond small examples
+        inner = [rng.choice([['count', 1], ['to_list'], ['last'], ['identity']])]
+        k = rng.choice(['group', 'group', 'roll', 'roll', 'rollc', 'split', 'time_split', 'tee'])
+        if k == 'group':
+            hd = ['group', rng.choice([['id'], ['mod', 300], ['mod', 257]]), inner]
+        elif k == 'roll':
+            w, st = rng.choice([(64, 50), (130, 1), (257, 3), (50, 7), (3, 2)])
+            hd = ['roll', w, st, inner]
+        elif k == 'rollc':
+            hd = ['roll', rng.choice([1, 128, 300]), 0, inner]
+            hd[2] = hd[1]
+        elif k == 'split':
+            hd = ['split', rng.choice([['id'], ['floordiv', 50]]), inner]
+        elif k == 'time_split':
+            hd = ['time_split', ['id'], rng.choice([None, 40]), rng.choice([None, 2]), None, 1, inner]
+        else:
+            hd = ['tee', rng.choice(['zip', 'combine_latest', 'merge']), [[['first']], [['count', 1]], [['identity']]]]
+        ast = [hd] if rng.random() < 0.7 else [['group', ['mod', 3], [hd]]]
+        cases.append({'ast': ast, 'trace': muxgen.gen_trace_scale(rng, 'many_groups' if k == 'time_split' and False else None)})
     if tier != 'search':
         for d in ([1, 2] if tier == 'quick' else [1, 2, 3]):
             for ast in nestings(rng, d):
